@@ -319,6 +319,41 @@ pub fn run(eng: &mut Engine) {
                 } else {
                     ctx.label("lkm-reference-run-failed(C21)");
                 }
+                // kernel-module input analysed with an explicit selection: the kernel-module default subset must
+                // not be applied on top of --partial. The input is the user-space program of this case emitted as
+                // a kernel module (same trigger pack: calls to strcpy and ioctl are always present), so by
+                // construction CWE676 / CWE782 report iff they are selected.
+                {
+                    let twin = gen_input(if h.body_at <= tape.len() { &tape[h.body_at..] } else { &tape[0..0] }, ElfKind::Lkm, &PROFILE_C22, Pack::User(h.mask), h.lkm_debug);
+                    let (tpj, tef) = dir.write_input("lkmuser", &twin);
+                    let (bits, style) = h.subsets[0];
+                    // rotate so that the two forced names are selected independently of the user-space subset
+                    let (set, parg) = partial_arg(&names, bits.rotate_left(7) ^ 0x5a5a, style);
+                    let args = analysis_args(&tpj, &tef, &config, true, Some(&parg));
+                    if let Some(run) = exec("lkm-explicit-partial", &args) {
+                        ctx.extra_evaluations(1);
+                        let cmd = format!("cwe_checker {}", args.join(" "));
+                        if let Some(ws) = check_run("C22:lkm-partial", "lkm-partial", &run, &twin, &table, ctx, &cmd)? {
+                            let got = pairs(&ws);
+                            for p in &got {
+                                let e = table.emitters(&p.0, &p.1);
+                                if e.len() == 1 && !set.contains(&e[0]) {
+                                    ctx.report(format!("C22:lkm-partial:unselected-check-ran:{}", p.0), format!("kernel module, --partial {:?}: warning {:?} of an unselected check\n{}", parg, p, cmd))?;
+                                }
+                            }
+                            for forced in ["CWE676", "CWE782"] {
+                                let selected = set.iter().any(|m| m == forced);
+                                let present = got.iter().any(|p| p.0 == forced);
+                                if selected && !present {
+                                    ctx.report(format!("C22:lkm-partial:selected-check-missing:{}", forced), format!("kernel module with calls to strcpy and ioctl, --partial {:?}: no {} warning although the check is selected\noutput names = {:?}\n{}", parg, forced, got, cmd))?;
+                                }
+                                if selected {
+                                    ctx.label("lkm-explicit-partial-with-forced-check-selected");
+                                }
+                            }
+                        }
+                    }
+                }
                 for w in timeouts.borrow().iter() {
                     problems.lock().unwrap().push(format!("timeout (> {} s) on tape {} run {}", TIMEOUT_SECS, crate::tape::hex(tape), w));
                 }
